@@ -721,6 +721,14 @@ def same_size_groups(rnd):
                 pass
         for i in range(8):
             groups.append(Case(pool[(i + (i // 4)) % 2], dict(kw), 'repeated-content-group'))
+    # two DIFFERENT sizes with version information (>= 7) alternating in one group of 8 threads: a scratch buffer shared by the
+    # calls (version information bits, alignment positions, block layout) hands one symbol the other's values (wave 10, C02f-1)
+    for va, vb in ((7, 19), (8, 12), (9, 16), (10, 14), (7, 11), (13, 20)):
+        for i in range(8):
+            v = (va, vb)[i % 2]
+            e = rnd.choice(levels_of(v))
+            mode = rnd.choice([1, 2, 4])
+            groups.append(Case(content_for(rnd, mode, rnd.randint(1, 24)), dict(version=v, mask=rnd.randrange(8), error=LEVEL_NAME[e]), 'mixed-size-group'))
     return groups
 
 
